@@ -468,7 +468,7 @@ var contentVariants = []string{
 }
 
 var varVariants = [][][2]string{
-	{{"host", "flp<1>&\"x\"'"}, {"n", "42"}, {"unused", "zzz"}},
+	{{"host", "alio2-cr1-flp146.cern.ch"}, {"n", "42"}, {"unused", "zzz"}},
 }
 
 func lookupCase(s shape, kinds []int, distinct []string, content string, vars [][2]string, tags []string) fw.Case {
@@ -675,8 +675,8 @@ func nontrivial(input, obs string) bool {
 		s := in.At(1).Str()
 		return strings.Count(s, "/") >= 2 || strings.Contains(s, "=")
 	case "lookup":
-		// at least one of the four candidates exists or the query needs a fallback decision (always true by construction)
-		return in.At(2).Len() >= 5
+		// a tree with at least four entries (candidates and distractors)
+		return in.At(2).Len() >= 4
 	}
 	return false
 }
@@ -721,7 +721,7 @@ func init() {
 			"existence patterns; exhaustive) x 2 contents, plus random shapes/contents/variables, each through a fresh local.Service over a generated " +
 			"YAML file (real YamlSource wrapped in an Exists-recorder); parse: grammar-generated component/RUNTYPE/role/entry strings, entries " +
 			"paths and parameter lists, 12 mutation operators, random soup, surrounding Unicode blanks, through NewQuery/NewEntriesQuery/" +
-			"NewQueryParameters; non-trivial = lookup with >=5 tree entries, or parse string with >=2 '/' or a '='; distinct by input text",
+			"NewQueryParameters; non-trivial = lookup with >=4 tree entries, or parse string with >=2 '/' or a '='; distinct by input text",
 		Shrink:     shrinkCands,
 		Exhaustive: func(string) bool { return false },
 		Workers:    1,
